@@ -187,6 +187,7 @@ type Report struct {
 	Unsat        int
 	Unknown      int
 	SolverTime   time.Duration
+	ModelTime    time.Duration
 	SolverErrors []string
 	Wall         time.Duration
 	Steps        int64
@@ -198,6 +199,7 @@ type Report struct {
 	Inputs       int
 	SampleInputs []string
 	PathsTruncated bool
+	ViolationCount int
 	Samples      []PathSample
 	samplePending int
 }
@@ -286,6 +288,7 @@ func (p *Program) Explore(h *Harness) *Report {
 	assum := map[string]bool{}
 	seenViol := map[string]bool{}
 	var wg sync.WaitGroup
+	tracker := &violTracker{seen: map[string]int{}}
 
 	var worker func()
 	worker = func() {
@@ -313,6 +316,7 @@ func (p *Program) Explore(h *Harness) *Report {
 				rep.Unsat += s.NUnsat
 				rep.Unknown += s.NUnknown
 				rep.SolverTime += s.Time
+				rep.ModelTime += s.ModelTime
 				rep.SolverErrors = append(rep.SolverErrors, s.Errors...)
 				workers--
 				cond.Broadcast()
@@ -339,9 +343,9 @@ func (p *Program) Explore(h *Harness) *Report {
 			mu.Unlock()
 
 			pathSlots <- struct{}{}
-			s.PopTo(0)
 			e := p.newExec(h, b, s)
 			e.prefix = prefix
+			e.tracker = tracker
 			b.fresh = 0
 			outcome := e.runPath(sp, fn, h)
 			var sample *PathSample
@@ -352,7 +356,7 @@ func (p *Program) Explore(h *Harness) *Report {
 			}
 			mu.Unlock()
 			if needSample {
-				if r, vals := s.CheckModel(e.inputs); r == Sat {
+				if r, vals := e.checkVals(e.inputs); r == Sat {
 					ps := &PathSample{}
 					for l := range e.reaches {
 						ps.Reaches = append(ps.Reaches, l)
@@ -389,11 +393,12 @@ func (p *Program) Explore(h *Harness) *Report {
 			}
 			work = append(work, e.forks...)
 			for _, v := range e.violations {
-				key := v.Kind + "|" + v.Label + "|" + v.Detail
-				if !seenViol[key] || len(rep.Violations) < 50 {
+				key := v.Kind + "|" + v.Label
+				if len(v.Inputs) > 0 && (!seenViol[key] || len(rep.Violations) < 30) {
 					rep.Violations = append(rep.Violations, v)
+					seenViol[key] = true
 				}
-				seenViol[key] = true
+				rep.ViolationCount++
 			}
 			for l := range e.reaches {
 				rep.Reaches[l]++
